@@ -621,6 +621,8 @@ class Models:
             return Opaque('BTreeIntoIter', PyIter(items))
         if t is Opaque and v.kind == 'HashMap':
             raise Inconclusive('HashMap by-value iteration')
+        if t is Struct and it.prog.find_fn('next', ['&' + v.ty], 1, trait='Iterator'):
+            return v    # blanket impl<I: Iterator> IntoIterator for I
         raise Inconclusive('into_iter of %r' % (v,))
 
     def hashmap_iter(self, it, hm):
@@ -1185,3 +1187,14 @@ def _(it, ci, a, d):
     if h is None:
         raise Inconclusive('format! without hook')
     return h(it, a)
+
+
+@model('Box::new_uninit')
+def _(it, ci, a, d):
+    return BoxV(Struct('MaybeUninit', [UNIT, Struct('ManuallyDrop', [Struct('MaybeDangling', [None])])]))
+
+
+@model('box_assume_init_into_vec_unsafe', 'boxed::box_assume_init_into_vec_unsafe')
+def _(it, ci, a, d):
+    arr = a[0].cell[0].fields[1].fields[0].fields[0]
+    return VecV(list(arr.fields))
